@@ -7,7 +7,7 @@ from symv.dense import describe, embed, index_sig_nosub, is_array, struct_sig
 
 META = {
     "level": "exploration",
-    "level_text": "Every monitored tensordot / @ / trace / einsum call on generated abelian operands is compared element for element (exactly on integer-valued data) with numpy on independently densified operands, embedded by charge sector; result charge, directions and block sizes are checked too. Seeded random exploration over all 5 symmetries, 0..4 axes, all modes and call forms; no exhaustiveness claimed. Later additions: operands whose contracted legs list different charges (union layout), operands with identity histories, mixed static/generic classes, one index object on several legs, the same object as both operands, axes as iterators / numpy arrays, rank-0 and scalar operands.",
+    "level_text": "Every monitored tensordot / @ / trace / einsum call on generated abelian operands is compared element for element (exactly on integer-valued data) with numpy on independently densified operands, embedded by charge sector; result charge, directions and block sizes are checked too. Seeded random exploration over all 5 symmetries, 0..4 axes, all modes and call forms; no exhaustiveness claimed. Later additions: operands whose contracted legs list different charges (union layout), operands with identity histories, mixed static/generic classes, one index object on several legs, the same object as both operands, axes as iterators / numpy arrays, rank-0 and scalar operands. Round 9: user-defined symmetries; pairs whose output blocks receive 9-40 partial products, in four element types and every mode.",
     "technique": "runtime monitoring: differential oracle (numpy tensordot/trace/einsum on independently densified operands)",
     "rule": (
         "one evaluation = one library contraction call (tensordot via symmray.tensordot or autoray.do, axes as int / pair of lists with negative entries, "
